@@ -235,18 +235,22 @@ theorem regular_biregular (l r d : Int) (fuel : Nat) (ds rest : List Draw) (G : 
     G.InvGB ∧ G.l = l.toNat ∧ G.r = r.toNat ∧
     (∀ u, 1 ≤ u → u ≤ G.l → G.leftDeg u = d.toNat) ∧
     (∀ v, 1 ≤ v → v ≤ G.r → G.rightDeg v = (l * d / r).toNat) := by
-  obtain ⟨_, _, _, _, hI, hl, hr, h1, h2⟩ := randomRegular_ok l r d fuel ds rest G h
+  obtain ⟨_, _, _, _, _, hI, hl, hr, h1, h2⟩ := randomRegular_ok l r d fuel ds rest G h
   exact ⟨hI, hl, hr, h1, h2⟩
 
-/-- … and what it can raise: the documented `ValueError`; `ZeroDivisionError` for `r = 0` and
-`RecursionError` when the restart budget is used up (for `d > r` EVERY attempt fails, see
-`regular_library_d_gt_r`) — two library-level findings that the command-line guard keeps away -/
+/-- … and what it can raise.  `ValueError`, exactly for the documented reasons (a negative
+argument, `d > r`, or `r > 0` not dividing `l·d`); and `RecursionError`, which is NOT excluded by
+the argument checks: for arguments that pass all of them (with `r > 0`) it is raised when every one
+of the `fuel` attempts ended in a dead end — no free pair left among the unused cells, the code
+restarts by calling itself — (or when the budget was empty to begin with).  Nothing else: no
+`ZeroDivisionError` (`r = 0` returns, see `regular_r_zero`), nothing from inside an attempt. -/
 theorem regular_refusal (l r d : Int) (fuel : Nat) (ds : List Draw) (e : Err)
     (h : randomRegular l r d fuel ds = .exc e) :
-    (e = .valueError ∧ (l < 0 ∨ r < 0 ∨ d < 0 ∨ (r ≠ 0 ∧ (l * d) % r ≠ 0))) ∨
-    (e = .zeroDivision ∧ r = 0) ∨ e = .recursion := randomRegular_exc l r d fuel ds e h
+    (e = .valueError ∧ (l < 0 ∨ r < 0 ∨ d < 0 ∨ d > r ∨ (0 < r ∧ (l * d) % r ≠ 0))) ∨
+    (e = .recursion ∧ (fuel = 0 ∨ (0 ≤ l ∧ 0 < r ∧ 0 ≤ d ∧ d ≤ r ∧ (l * d) % r = 0))) :=
+  randomRegular_exc l r d fuel ds e h
 
-/-- the draws on which the code of before the fix returned the non-regular graph
+/-- the draws on which the code of before the fix of D10 returned the non-regular graph
 `{(1,1),(1,2),(2,1)}` for `(l,r,d) = (2,2,2)`: twelve failed tries at `i = 1`.  The present code
 uses the pair found by the scan and ends with the complete graph. -/
 def d10Draws : List Draw :=
@@ -257,16 +261,46 @@ theorem regular_d10_witness_now_regular :
       | .ok G rest => some (G.numberOfEdges, G.leftDeg 1, G.leftDeg 2, G.rightDeg 1, G.rightDeg 2, rest.length)
       | _ => none) = some (4, 2, 2, 2, 2, 0) := by decide +kernel
 
-/-- library level, outside the command-line range: `r = 0` is a `ZeroDivisionError` … -/
-theorem regular_library_r_zero (ds : List Draw) : randomRegular 2 0 1 5 ds = .exc .zeroDivision := rfl
+/-- `r = 0` (then `d = 0` is forced by `d ≤ r`): the graph with `l` left vertices, no right vertex
+and no edge is returned, without a draw (before the fix of C15-F1: `ZeroDivisionError`) -/
+theorem regular_r_zero (l : Int) (hl : 0 ≤ l) (fuel : Nat) (ds : List Draw) :
+    randomRegular l 0 0 (fuel + 1) ds = .ok (BipG.init l.toNat 0) ds := by
+  simp only [randomRegular]
+  rw [if_neg (by omega), if_neg (by omega), if_neg (by omega), if_pos (by trivial)]
+  rfl
 
-/-- … and `d > r` (here `(1,1,2)`) restarts for ever: with legal draws every attempt ends in a
-restart, so the outcome is `RecursionError` whatever the budget -/
-theorem regular_library_d_gt_r :
-    (match randomRegular 1 1 2 3 ((List.replicate 150 (Draw.randint 1)).zipIdx.map
-        (fun p => if p.2 % 26 < 2 then Draw.randint 0 else p.1)) with
+/-- `d > r` is refused with `ValueError` (before the fix of C15-F2 every attempt failed and the
+function restarted until `RecursionError`) -/
+theorem regular_d_gt_r (l r d : Int) (hl : 0 ≤ l) (hr : 0 ≤ r) (hd : r < d) (fuel : Nat) (ds : List Draw) :
+    randomRegular l r d (fuel + 1) ds = .exc .valueError := by
+  simp only [randomRegular]
+  rw [if_neg (by omega), if_pos (by omega)]
+  rfl
+
+/-- a dead end of one attempt for `(3,3,2)` (accepted by every argument check): after the edges
+(1,1) (1,2) (2,1) (2,2) (3,3) the only unused cells are `A[5] = B[5] = 3`; the 12 tries and the scan
+find no free pair and the function calls itself -/
+def deadEnd332 : List Draw :=
+  [.randint 0, .randint 0, .randint 3, .randint 1, .randint 3, .randint 3, .randint 4, .randint 4,
+   .randint 4, .randint 4] ++ List.replicate 24 (.randint 5)
+
+/-- what remains of `RecursionError`: it cannot be excluded for arguments in range.  Legal draws
+exist on which every attempt of `(3,3,2)` ends in that dead end; with a budget of `k` nested calls
+and `k` such attempts the outcome is `RecursionError` (here `k = 3`).  The argument checks cannot
+remove it; only a restart by iteration instead of recursion would. -/
+theorem regular_restart_budget_witness :
+    (match randomRegular 3 3 2 3 (deadEnd332 ++ deadEnd332 ++ deadEnd332) with
       | .exc .recursion => true
       | _ => false) = true := by decide +kernel
+
+/-- … while one more attempt that succeeds gives the 2-regular graph -/
+theorem regular_restart_then_success :
+    (match randomRegular 3 3 2 3 (deadEnd332 ++ deadEnd332 ++
+        [.randint 0, .randint 0, .randint 3, .randint 1, .randint 4, .randint 4, .randint 3, .randint 5,
+         .randint 5, .randint 4, .randint 5, .randint 5]) with
+      | .ok G rest => [G.numberOfEdges, G.leftDeg 1, G.leftDeg 2, G.leftDeg 3,
+                       G.rightDeg 1, G.rightDeg 2, G.rightDeg 3, rest.length]
+      | _ => []) = [6, 2, 2, 2, 2, 2, 2, 0] := by decide +kernel
 
 /-! ### modifications -/
 
@@ -378,6 +412,7 @@ theorem guards_documented :
     (∀ n b, completeMultiGuard n b = true ↔ 0 < n ∧ 0 < b) ∧
     (∀ n, emptySimpleGuard n = true ↔ 0 < n) ∧
     (∀ dims, gridGuard dims = true ↔ ∀ d ∈ dims, 0 < d) ∧
+    (∀ dims : List Int, gridDimsGiven dims = true ↔ dims ≠ []) ∧
     (∀ l r pn pd, glrpGuard l r pn pd = true ↔ 0 < l ∧ 0 < r ∧ 0 ≤ pn ∧ pn ≤ pd) ∧
     (∀ l r m, glrmGuard l r m = true ↔ 0 < l ∧ 0 < r ∧ 0 ≤ m ∧ m ≤ l * r) ∧
     (∀ l r d, glrdGuard l r d = true ↔ 0 < l ∧ 0 < r ∧ 0 ≤ d ∧ d ≤ r) ∧
@@ -387,12 +422,12 @@ theorem guards_documented :
     (∀ h, treeGuard h = true ↔ 0 ≤ h) ∧ (∀ h, pyramidGuard h = true ↔ 0 ≤ h) ∧ (∀ h, pathGuard h = true ↔ 0 ≤ h) ∧
     (∀ k, plantcliqueGuard k = true ↔ 0 ≤ k) ∧ (∀ a b, plantbicliqueGuard a b = true ↔ 0 ≤ a ∧ 0 ≤ b) ∧
     (∀ k, addedgesGuard k = true ↔ 0 ≤ k) ∧ (∀ k, splitedgesGuard k = true ↔ 0 ≤ k) := by
-  refine ⟨?_, ?_, ?_, ?_, ?_, ?_, ?_, ?_, ?_, ?_, ?_, ?_, ?_, ?_, ?_, ?_, ?_, ?_, ?_, ?_, ?_⟩ <;> intros <;>
+  refine ⟨?_, ?_, ?_, ?_, ?_, ?_, ?_, ?_, ?_, ?_, ?_, ?_, ?_, ?_, ?_, ?_, ?_, ?_, ?_, ?_, ?_, ?_⟩ <;> intros <;>
     simp only [gndGuard, gndOdd, gnmGuard, gnpGuard, completeSimpleGuard, completeMultiGuard, emptySimpleGuard,
-      gridGuard, glrpGuard, glrmGuard, glrdGuard, regularGuard, completeBipGuard, emptyBipGuard, treeGuard,
+      gridGuard, gridDimsGiven, glrpGuard, glrmGuard, glrdGuard, regularGuard, completeBipGuard, emptyBipGuard, treeGuard,
       pyramidGuard, pathGuard, plantcliqueGuard, plantbicliqueGuard, addedgesGuard, splitedgesGuard,
       Bool.and_eq_true, decide_eq_true_eq, beq_iff_eq, List.all_eq_true, Bool.not_eq_true', decide_eq_false_iff_not] <;>
-    first | omega | (constructor <;> intro h d hd <;> have := h d hd <;> omega)
+    first | omega | (constructor <;> intro h d hd <;> have := h d hd <;> omega) | simp
 
 /-- `shift`: `L, R > 0`, offsets pairwise distinct (checked on the sorted list) and within `0..R` -/
 theorem shiftGuard_documented (l r : Int) (sorted : List Int) :
@@ -421,10 +456,10 @@ theorem glrd_accepted_pre (l r d : Int) (hg : glrdGuard l r d = true) :
     ¬ (l < 0 ∨ r < 0 ∨ d < 0) ∧ min r d = d := by
   simp only [glrdGuard, Bool.and_eq_true, decide_eq_true_eq] at hg; omega
 
-/-- `regular`: accepted ⇒ none of the library's refusals, `r ≠ 0` (no `ZeroDivisionError`) and
-`d ≤ r` (a regular graph exists, so an attempt can succeed) -/
+/-- `regular`: accepted ⇒ none of the library's refusals (`regular_refusal`), and `r > 0`: the
+only exception left for an accepted request is the `RecursionError` of `regular_restart_budget_witness` -/
 theorem regular_accepted_pre (l r d : Int) (hg : regularGuard l r d = true) :
-    ¬ (l < 0 ∨ r < 0 ∨ d < 0) ∧ r ≠ 0 ∧ (l * d) % r = 0 ∧ d ≤ r := by
+    ¬ (l < 0 ∨ r < 0 ∨ d < 0 ∨ d > r ∨ (0 < r ∧ (l * d) % r ≠ 0)) ∧ 0 < r := by
   simp only [regularGuard, Bool.and_eq_true, decide_eq_true_eq, beq_iff_eq] at hg
   have : l * d = d * l := Int.mul_comm l d
   rw [this]; omega
@@ -440,7 +475,8 @@ theorem shift_accepted_pre (l r : Int) (p : List Int) (hg : shiftGuard l r p = t
 the only exception classes that can leave `obtain_graph`, for every construction, every argument
 list (any arity, any tokens), every option combination and all draws, are `ValueError` (turned into
 a usage error by the argparse actions), `RecursionError` for `regular` when every attempt within the
-restart budget fails, and the `TypeError` of `split_random_edges` on a graph that is not simple
+restart budget ends in a dead end (this remains after the fix of C15-F2, see
+`regular_restart_budget_witness`), and the `TypeError` of `split_random_edges` on a graph that is not simple
 (the parser offers `splitedges` for simple graphs only); no third-party exception escapes -/
 theorem obtain_graph_clean (gt : GType) (p : Parsed) (e : Option CG) (fuel : Nat) (ds : List Draw) :
     (∀ err, obtainGraph gt p e fuel ds = .exc err →
